@@ -16,7 +16,7 @@ RULE = ("enumerated deployments: route prefix {/, /dav/, /a/b/} x principal {/us
         "every collection, member body and property must be as before; distinct = distinct (configuration, life number, outcome)")
 
 PREFIXES = ["/", "/dav/", "/a/b/"]
-PRINCIPALS = ["/user/", "/user", "/users/alice/", "/p/q/r"]
+PRINCIPALS = ["/user/", "/user", "/users/alice/", "/p/q/r", "/alice@example.com/", "/jo+cal é/"]
 MODES = ["defaults", "autocreate", "none"]
 FES = ["aio", "wsgihost"]
 RESTARTS = [0, 1, 3]
@@ -342,7 +342,8 @@ def check(tier, seed, t0):
         for fe in FES:
             for mode in MODES:
                 for k in range(4):
-                    picked.append({"fe": fe, "mode": mode, "prefix": PREFIXES[(k + len(picked)) % 3], "principal": PRINCIPALS[k], "restarts": [1, 0, 3, 1][k], "seed": seed * 1000 + len(picked),
+                    picked.append({"fe": fe, "mode": mode, "prefix": PREFIXES[(k + len(picked)) % 3], "principal": PRINCIPALS[k] if k != 1 or mode != "autocreate" else PRINCIPALS[4 + (fe == "aio")],
+                                   "restarts": [1, 0, 3, 1][k], "seed": seed * 1000 + len(picked),
                                    "delete_default": [("addressbooks" if mode != "autocreate" else None), None, "calendars", None][k], "bare_user_col": k == 1})
         cfgs = picked
     n = 16
